@@ -104,11 +104,11 @@ package mp4
 //@   ensures[C19] result1 == nil ==> result0 != nil && fresh(result0) && result0.Version == 0 && result0.Flags == 0 && !result0.LacksNullTermination
 //@   ensures[C19] mediaOrHdlrType == "video" || mediaOrHdlrType == "vide" ==> result1 == nil && result0.HandlerType == "vide"
 //@   ensures[C19] mediaOrHdlrType == "audio" || mediaOrHdlrType == "soun" ==> result1 == nil && result0.HandlerType == "soun"
-//@   ensures[C19] mediaOrHdlrType == "subtitle" || mediaOrHdlrType == "subt" ==> result1 == nil && result0.HandlerType == "subt"
+//@   ensures[C19] mediaOrHdlrType == "subtitle" || mediaOrHdlrType == "subtitles" || mediaOrHdlrType == "subt" || mediaOrHdlrType == "stpp" ==> result1 == nil && result0.HandlerType == "subt"
 //@   ensures[C19] mediaOrHdlrType == "text" || mediaOrHdlrType == "wvtt" ==> result1 == nil && result0.HandlerType == "text"
 //@   ensures[C19] len(mediaOrHdlrType) == 4 ==> result1 == nil
-//@   ensures[C19] len(mediaOrHdlrType) == 4 && !(mediaOrHdlrType == "vide" || mediaOrHdlrType == "soun" || mediaOrHdlrType == "subt" || mediaOrHdlrType == "text" || mediaOrHdlrType == "wvtt" || mediaOrHdlrType == "meta" || mediaOrHdlrType == "clcp") ==> result0.HandlerType == mediaOrHdlrType
-//@   ensures[C19] len(mediaOrHdlrType) != 4 && !(mediaOrHdlrType == "video" || mediaOrHdlrType == "audio" || mediaOrHdlrType == "subtitle") ==> result1 != nil
+//@   ensures[C19] len(mediaOrHdlrType) == 4 && !(mediaOrHdlrType == "vide" || mediaOrHdlrType == "soun" || mediaOrHdlrType == "subt" || mediaOrHdlrType == "stpp" || mediaOrHdlrType == "text" || mediaOrHdlrType == "wvtt" || mediaOrHdlrType == "meta" || mediaOrHdlrType == "clcp") ==> result0.HandlerType == mediaOrHdlrType
+//@   ensures[C19] len(mediaOrHdlrType) != 4 && !(mediaOrHdlrType == "video" || mediaOrHdlrType == "audio" || mediaOrHdlrType == "subtitle" || mediaOrHdlrType == "subtitles") ==> result1 != nil
 //@   assigns nothing
 
 // NOT DECIDED: m.Language == langCode(lang). The verifier models "for i, c := range <string>" by havocking index and rune, so
